@@ -398,3 +398,21 @@ Lemma own_lparams_vocabulary :
      own_groups A D theta dur used (j, mkinstr OpRz [q] []) = [GRz (N.to_nat q) (theta j)] /\
      own_groups A D theta dur used (j, mkinstr OpDelay [q] []) = (if memN q used then [GRelax (N.to_nat q) (dur j)] else [])).
 Proof. voc. Qed.
+
+Lemma calls_own_params_layered :
+  forall (A D : Type) (theta : nat -> A) (dur : nat -> D),
+  (forall (data : list SimRun.instr) (used : list N) (meas : list (N * N)) (n : nat) (nq : Z),
+   Forall wf_qiskit data -> process_layout data = Ok (used, meas, n) ->
+   translate_calls_layered A D theta dur used nq data
+   = Ok (calls_of_groups A D (Z.to_nat nq) (flat_map (own_groups A D theta dur used) (numbered data)))) /\
+  (forall (nq : nat) (gs : list (group A D)), Forall (own_lparams A D nq) (calls_of_groups A D nq gs)) /\
+  (forall (nq : nat) (g : group A D),
+   match g with
+   | GRz q th => group_calls A D nq g = [LC (CRz q th)]
+   | G1 k q => (q < nq)%nat -> filter (is_LC A D) (group_calls A D nq g) = [LC (C1 k q (N.of_nat q))]
+   | G2 k c t => (c < nq)%nat -> filter (is_LC A D) (group_calls A D nq g) = [LC (C2 k c t (N.of_nat c) (N.of_nat t))]
+   | GRelax q d => (q < nq)%nat -> filter (is_LC A D) (group_calls A D nq g) = [LC (CRelax q d (N.of_nat q))]
+   end).
+Proof.
+  intros A D theta dur. split; [exact (groups_are_own A D theta dur)|]. split; [exact (lcalls_own A D) | exact (group_one_call A D)].
+Qed.
